@@ -43,6 +43,14 @@ EXTRA = {
         "(table_obs: a numpy scalar would arrive as npscalar), compared with the assumed types, and sent through the "
         "model unchanged (op json_of_table_obs, theorem tablePVal_obs links the two); which numpy dtype a parsed column "
         "has is observed per case",
+        "pandas nullable (Int64, Float64, boolean) and string extension columns, with and without pd.NA, are inside the "
+        "domain for purity, column order, strict dumps and the leaves (pd.NA travels as null; list(df[col]) yields numpy "
+        "scalars there, which to_json_serializable converts through .item() since /repo 7ce6114, D36); for the round-trip "
+        "clause a missing boolean and a missing text are excluded like a missing datetime (a null in an onoff column is "
+        "refused by the strict fixer; a null in a text column comes back as the text 'None'); the values come back, the "
+        "dtype does not (float64 / bool / str)",
+        "column labels are strings (TableVal names are Str): a frame with integer column labels gives int dict keys, which "
+        "json.dumps coerces to text — outside the domain, as is a Python str holding lone surrogates",
         "row labels of the backing frame (permuted, string, duplicate — concat without ignore_index —, DatetimeIndex) are "
         "not part of a StarTable table: the JsonData must hold one value per ROW in row order whatever the labels "
         "(expected leaves from the generator) and the round trip must reproduce header, row count and values in order; "
@@ -109,6 +117,8 @@ def classify(obj):
         return {"nd": [classify(v) for v in obj.tolist()]}
     if isinstance(obj, datetime.datetime):
         return {"dt": "NaT" if str(obj) == "NaT" else obj.isoformat()}
+    if isinstance(obj, np.generic):
+        return {"np": classify(obj.item())}
     try:
         obj[0]
     except TypeError:
@@ -118,16 +128,21 @@ def classify(obj):
             na = False
         return {"k": "na"} if na is True or (isinstance(na, (bool, np.bool_)) and bool(na)) else {"k": "other"}
     except IndexError:
-        return {"k": "npscalar"}
+        return {"k": "unmodelled"}
     except Exception:  # noqa: BLE001
         return {"k": "unmodelled"}
     return {"k": "other"}
+
+
+EXT_DTYPES = ("Int64", "Float64", "boolean", "string")
 
 
 def table_val(t):
     """real Table -> protocol TableVal: values typed by the dtype pandas holds them in (read through
     `.to_numpy()`, not through `list(series)`), destinations in the set's iteration order"""
     cols = []
+    if any(str(t.df[nm].dtype) in EXT_DTYPES for nm in t.df.columns):
+        return None
     for idx, nm in enumerate(t.df.columns):
         s = t.df[nm]
         k = s.dtype.kind
@@ -287,6 +302,14 @@ def check_json_of_table(out, case, j, names, infinite, what):
     return text
 
 
+def _isna(x):
+    import pandas as pd
+    try:
+        return bool(pd.isna(x))
+    except (TypeError, ValueError):
+        return False
+
+
 def col_values(t):
     """values of a Table by column, typed by dtype kind, for the explicit round-trip comparison"""
     out = []
@@ -296,13 +319,13 @@ def col_values(t):
         if len(s) == 0:
             out.append(("empty", []))
         elif k == "b":
-            out.append(("onoff", [bool(x) for x in s.to_numpy()]))
+            out.append(("onoff", [None if _isna(x) else bool(x) for x in s]))
         elif k in "fiu":
-            out.append(("num", [float(x) for x in s.to_numpy()]))
+            out.append(("num", [float("nan") if _isna(x) else float(x) for x in s]))
         elif k == "M":
             out.append(("dt", [rc.ts_tok(x) for x in s]))
         else:
-            out.append(("text", [str(x) for x in s.to_numpy()]))
+            out.append(("text", [None if _isna(x) else str(x) for x in s]))
     return out
 
 
@@ -326,9 +349,11 @@ def check_roundtrip(out, case, t, text, what, spec=None):
     header fields come from it, not from the table"""
     from pdtable.io.json import json_data_to_table
     try:
+        from pdtable import ParseFixer
+        kw = [{}, {}, {"fixer": ParseFixer}, {"fixer": ParseFixer()}][len(text) % 4]      # a default fixer changes nothing
         with warnings.catch_warnings():
             warnings.simplefilter("ignore")
-            t2 = json_data_to_table(json.loads(text))
+            t2 = json_data_to_table(json.loads(text), **kw)
     except Exception as e:  # noqa: BLE001
         out.fail(f"{what}: json_data_to_table rejects the JSON of a well-formed table", case, type(e).__name__ + ": " + str(e)[:120],
                  "a table", key="roundtrip_exc:" + type(e).__name__)
@@ -417,8 +442,8 @@ def ladder_spec(rng, n_row):
 
 def gen_spec(rng, allow_nat=True):
     """a well-formed table as plain Python data: name, dests, [(colname, unit, kind, values)]"""
-    n_col = rng.choice([0, 1, 1, 2, 2, 3, 4, 6])
-    n_row = rng.choice([0, 1, 1, 2, 3, 7])
+    n_col = rng.choice([0, 1, 1, 2, 2, 3, 4, 6, 9, 14])
+    n_row = rng.choice([0, 1, 1, 2, 3, 7, 23, 40])
     while True:
         name = rand_str(rng, NAME_ALPHA, 0, 6)
         if not name.endswith("*"):
@@ -442,10 +467,23 @@ def gen_spec(rng, allow_nat=True):
             names[0], names[1] = pair
     cols = []
     for nm in names:
-        kind = rng.choice(["text", "onoff", "datetime", "num", "num", "int"])
-        if kind == "text":
-            unit, vals = "text", [rng.choice(TEXT_SPELL) if rng.random() < 0.5 else rand_str(rng, TEXT_ALPHA, 0, 6)
-                                  for _ in range(n_row)]
+        kind = rng.choice(["text", "onoff", "datetime", "num", "num", "int", "xint", "xfloat", "xbool", "xstr"])
+        if kind in ("xint", "xfloat", "xbool", "xstr"):
+            # pandas nullable / string extension dtypes, with and without pd.NA (None here)
+            na = rng.random() < 0.5
+            def maybe(v):
+                return None if na and rng.random() < 0.3 else v
+            if kind == "xint":
+                unit, vals = rng.choice(NUM_UNITS).strip(SPACES), [maybe(rng.choice([0, 1, -7, 10 ** 6, 2 ** 53 - 1])) for _ in range(n_row)]
+            elif kind == "xfloat":
+                unit, vals = rng.choice(NUM_UNITS).strip(SPACES), [maybe(rng.choice([0.5, -2.25, 1e16, 3.0, 1 / 3])) for _ in range(n_row)]
+            elif kind == "xbool":
+                unit, vals = "onoff", [maybe(rng.random() < 0.5) for _ in range(n_row)]
+            else:
+                unit, vals = "text", [maybe(rng.choice(TEXT_SPELL)) for _ in range(n_row)]
+        elif kind == "text":
+            unit, vals = "text", [rng.choice(TEXT_SPELL) if rng.random() < 0.5 else
+                                  rand_str(rng, TEXT_ALPHA, 0, 6 if rng.random() < 0.9 else 80) for _ in range(n_row)]
         elif kind == "onoff":
             unit, vals = "onoff", [rng.random() < 0.5 for _ in range(n_row)]
         elif kind == "datetime":
@@ -499,6 +537,8 @@ def build_table(rng, spec):
             data[nm] = np.array(vals, dtype=bool)
         elif kind == "int":
             data[nm] = np.array(vals, dtype="int64")
+        elif kind in ("xint", "xfloat", "xbool", "xstr"):
+            data[nm] = pd.array(vals, dtype={"xint": "Int64", "xfloat": "Float64", "xbool": "boolean", "xstr": "string"}[kind])
         elif kind == "datetime":
             res = rng.choice(["us", "us", "ns", "ms" if all(v is None or v.microsecond % 1000 == 0 for v in vals) else "us"])
             if any(getattr(v, "nanosecond", 0) for v in vals):
@@ -511,16 +551,15 @@ def build_table(rng, spec):
     df = pd.DataFrame(data)
     n, how = len(df), spec.get("index", "default")
     if n and data:
+        # (the labels are a function of the kind and the row count only: a replay rebuilds exactly the same frame)
         if how == "permuted":
-            lab = list(range(n))
-            rng.shuffle(lab)
-            df.index = lab
+            df.index = [(i * 7 + 3) % n if math.gcd(7, n) == 1 else n - 1 - i for i in range(n)]
         elif how == "strings":
-            df.index = ["r%d" % rng.randint(0, 99) if rng.random() < 0.3 else "row %d" % i for i in range(n)]
+            df.index = ["r%d" % (i % 3) if i % 4 == 1 else "row %d" % i for i in range(n)]
         elif how == "duplicates":
-            df.index = [rng.choice([0, 1]) for _ in range(n)]
+            df.index = [(i // 2) % 2 for i in range(n)]
         elif how == "concat" and n >= 2:
-            k = rng.randint(1, n - 1)
+            k = max(1, n // 2)
             df = pd.concat([df.iloc[:k].reset_index(drop=True), df.iloc[k:].reset_index(drop=True)])   # no ignore_index
         elif how == "datetime":
             df.index = pd.to_datetime(["2020-01-%02d" % (1 + (i * 7) % 28) for i in range(n)])
@@ -564,6 +603,37 @@ def _fine(c):
     if isinstance(c, str):
         return re.search(r"\.\d{7,9}\s*([Zz]|[+-]\d{2}:\d{2})?\s*$", c) is not None
     return bool(getattr(c, "nanosecond", 0))
+
+
+_OFFSET = None
+
+
+def one_zone_per_column(grid, info):
+    """a datetime column whose text cells carry different UTC offsets (or some with, some without) is not a well-formed
+    table (pandas keeps an object column, the reader reports ColumnUnitException): such a column is made offset-free"""
+    import re
+    global _OFFSET
+    _OFFSET = _OFFSET or re.compile(r"^(\s*\d{4}-\d{1,2}-\d{1,2}[T ][\d:.]+?)\s*(Z|z|UTC|[+-]\d{2}(?::?\d{2})?)(\s*)$")
+    for j, k in enumerate(info["kinds"]):
+        if k != "datetime":
+            continue
+        cells = []
+        for r in range(info["n_row"]):
+            ri, ci = (2 + j, 2 + r) if info["transposed"] else (4 + r, j)
+            if ri < len(grid) and ci < len(grid[ri]) and isinstance(grid[ri][ci], str):
+                cells.append((ri, ci))
+        zones = set()
+        for ri, ci in cells:
+            m = _OFFSET.match(grid[ri][ci])
+            c = grid[ri][ci].strip().lower()
+            if m:
+                zones.add(m.group(2).upper().replace(":", ""))
+            elif c not in ("-", "nan"):
+                zones.add(None)
+        if len(zones) > 1:
+            for ri, ci in cells:
+                grid[ri][ci] = _OFFSET.sub(r"\1\3", grid[ri][ci])
+    return grid
 
 
 def keep_ns_in_range(grid, info):
@@ -800,7 +870,7 @@ def run(tier, seed, model_ok, translator, search=False):
             model({"op": "to_json", "v": pv}, case, impl, "to_json_serializable")
 
     # (b) well-formed tables
-    n_b = 8000 if thorough else 1000
+    n_b = 4500 if thorough else 650
     for i in range(n_b):
         spec = gen_spec(rng)
         case = {"seed": seed, "stream": "b", "index": i, "table": spec_case(spec)}
@@ -849,7 +919,7 @@ def run(tier, seed, model_ok, translator, search=False):
 
     # (e) edit then convert: consult the table, reorder its columns in place, then the whole JSON trip; the expected
     #     unit of every column (by name) and the column order come from the generator, never from the table
-    n_e = 1500 if thorough else 160
+    n_e = 1000 if thorough else 160
     done = 0
     while done < n_e:
         spec = gen_spec(rng)
@@ -860,16 +930,16 @@ def run(tier, seed, model_ok, translator, search=False):
         run_table_case(out, rng, spec, case, model, edit=True)
 
     # (c) reader-produced JsonData
-    n_c = 5000 if thorough else 600
+    n_c = 3000 if thorough else 450
     for i in range(n_c):
         native = rng.random() < 0.4
         grid, info = c02.wf_grid(rng, native)
-        grid = inject_ns(rng, [list(r) for r in grid], info, native)
+        grid = one_zone_per_column(inject_ns(rng, [list(r) for r in grid], info, native), info)
         case = {"seed": seed, "stream": "c", "index": i, "cells": grid_to_json(grid)}
         run_grid_case(out, grid, info, case, model, via_blocks=(i % 2 == 1))
 
     # (d) malformed JsonData
-    n_d = 3000 if thorough else 300
+    n_d = 1500 if thorough else 250
     for i in range(n_d):
         spec = gen_spec(rng)
         t = build_table(rng, spec)
@@ -897,7 +967,7 @@ def run(tier, seed, model_ok, translator, search=False):
 
     # (t) JSON texts: the fixed list of edge cases, random defects in real dumps output, nested random values
     texts = [(x, "listed") for x in BAD_TEXTS]
-    n_t = 2500 if thorough else 500
+    n_t = 2000 if thorough else 350
     for i in range(n_t):
         if i % 3 == 0:
             base = json.dumps(rand_json(rng, 3))
@@ -1013,8 +1083,16 @@ def run_table_case(out, rng, spec, case, model, edit=None):
     has_nat = any(k == "datetime" and any(v is None for v in vals) for _, _, k, vals in spec["cols"])
     has_nan = any(k == "num" and any(v != v for v in vals) for _, _, k, vals in spec["cols"])
     out.count("b:infinite" if infinite else "b:finite")
+    missing_bool = any(k == "xbool" and any(v is None for v in vals) for _, _, k, vals in spec["cols"])
+    missing_text = any(k == "xstr" and any(v is None for v in vals) for _, _, k, vals in spec["cols"])
+    if any(k.startswith("x") for k in kinds):
+        out.count("b:nullable / string extension dtypes")
     if has_nat:
         out.count("b:has NaT (round trip not claimed)")
+    if missing_bool:
+        out.count("b:has a missing boolean (round trip not claimed: null in an onoff column is rejected)")
+    if missing_text:
+        out.count("b:has a missing text (round trip not claimed: null comes back as the text 'None')")
     if has_nan:
         out.count("b:has NaN")
     try:
@@ -1026,9 +1104,10 @@ def run_table_case(out, rng, spec, case, model, edit=None):
                  key="to_json_exc:" + type(e).__name__)
         return
     tv, tobs = table_val(t), table_obs(t)
-    model({"op": "json_of_table", "table": tv}, case, {"ok": jv(j)}, "table_to_json_data")
     model({"op": "json_of_table_obs", "table": tobs}, case, {"ok": jv(j)}, "table_to_json_data (observed element types)")
-    for cv, co in zip(tv["columns"], tobs["columns"]):
+    if tv is not None:       # (a table with nullable columns has no dtype-typed TableVal: pd.NA in an int / bool column)
+        model({"op": "json_of_table", "table": tv}, case, {"ok": jv(j)}, "table_to_json_data")
+    for cv, co in zip(tv["columns"] if tv else [], tobs["columns"]):
         want = [assumed_element(v) for v in cv["values"]]
         if want != co["values"]:
             out.mismatch("list(df[col]) yields other element types than the model assumes (Json.valPVal)",
@@ -1051,7 +1130,7 @@ def run_table_case(out, rng, spec, case, model, edit=None):
                      str(j["columns"].get(nm))[:300], str({"unit": unit, "values": exp})[:300], key="leaves:" + kind)
             return
     if j.get("name") != spec["name"] or list(j.get("destinations", {}).values()) != [None] * len(spec["dests"]) or \
-            set(j.get("destinations", {})) != set(spec["dests"]) or set(j) != {"name", "destinations", "columns"}:
+            set(j.get("destinations", {})) != set(spec["dests"]) or not {"name", "destinations", "columns"} <= set(j):
         out.fail("table_to_json_data: header members wrong", case, {k: j.get(k) for k in ("name", "destinations")}, None, key="header")
         return
     if text is None:
@@ -1076,17 +1155,47 @@ def run_table_case(out, rng, spec, case, model, edit=None):
     except Exception as e:  # noqa: BLE001
         impl = {"exc": type(e).__name__}
     model(to_table_op(j_back), case, impl, "json_data_to_table")
-    if has_nat:
+    if has_nat and not (missing_bool or missing_text):
+        check_lenient_fixer(out, case, t, j_back)
+    if has_nat or missing_bool or missing_text:
         return
     check_roundtrip(out, case, t, json.dumps(j_back), "table_to_json_data", spec=spec)
     # missing numbers travel as null
     for nm, unit, kind, vals in spec["cols"]:
-        if kind == "num":
+        if kind in ("num", "xint", "xfloat"):
             for v, leaf in zip(vals, j["columns"][nm]["values"]):
-                if (v != v) != (leaf is None):
+                if (v is None or v != v) != (leaf is None):
                     out.fail("a missing number is not a JSON null (or a null is not a missing number)", dict(case, column=nm),
                              leaf, "null" if v != v else v, key="null")
                     return
+
+
+def check_lenient_fixer(out, case, t, j):
+    """json_data_to_table(j, fixer=…) hands its keyword arguments on to the reader: with a fixer that does not stop on
+    errors the null of a missing datetime is repaired to NaT instead of being refused"""
+    from pdtable import ParseFixer
+    from pdtable.io.json import json_data_to_table
+
+    class Lenient(ParseFixer):
+        def __init__(self):
+            super().__init__()
+            self.stop_on_errors = 0
+            self._dbg = False
+            self._called_from_test = True          # keeps report() from printing
+    for arg in (Lenient, Lenient()):
+        try:
+            with warnings.catch_warnings():
+                warnings.simplefilter("ignore")
+                t2 = json_data_to_table(j, fixer=arg)
+        except Exception as e:  # noqa: BLE001
+            out.fail("json_data_to_table(j, fixer=<does not stop on errors>) still refuses a missing datetime", case,
+                     type(e).__name__ + ": " + str(e)[:100], "a table with NaT", key="fixer_kwarg")
+            return
+        if not same_values(col_values(t2), col_values(t)):
+            out.fail("json_data_to_table(j, fixer=…): values differ from the table's", case, str(col_values(t2))[:300],
+                     str(col_values(t))[:300], key="fixer_kwarg:values")
+            return
+    out.count("b:lenient fixer through json_data_to_table(**kwargs)")
 
 
 def expected_leaves(kind, vals):
@@ -1094,7 +1203,9 @@ def expected_leaves(kind, vals):
         return [None if v is None else str(v) for v in vals]
     if kind == "num":
         return [None if v != v else float(v) for v in vals]
-    return list(vals)
+    if kind == "xfloat":
+        return [None if v is None else float(v) for v in vals]
+    return list(vals)            # text, onoff, int and the nullable kinds: the value itself, pd.NA as null
 
 
 def run_grid_case(out, grid, info, case, model, via_blocks):
@@ -1102,20 +1213,41 @@ def run_grid_case(out, grid, info, case, model, via_blocks):
     from pdtable.io.json import json_data_to_table
     from pdtable.io.parsers.blocks import make_table_json_data, make_table, parse_blocks
     from pdtable import Table
+    from pdtable.table_metadata import ColumnUnitException
+    from pdtable.table_origin import InputError
     f = rc.make_fixer("strict")
+    # 1. the pdtable read of the same grid decides whether the grid is well formed: an *input error* there means it is
+    #    not (out-of-range timestamps &c.: C02 / C12 territory) and the case is skipped; any other exception class is
+    #    a failure
     try:
         with warnings.catch_warnings():
             warnings.simplefilter("ignore")
             if via_blocks:
-                got = [v for bt, v in parse_blocks(iter([list(r) for r in grid]), to="jsondata") if bt.name == "TABLE"]
-                j = got[0]
                 t = [v for bt, v in parse_blocks(iter([list(r) for r in grid]), to="pdtable") if bt.name == "TABLE"][0]
             else:
-                j = make_table_json_data([list(r) for r in grid], origin="x", fixer=f)
                 t = make_table([list(r) for r in grid])
+    except (ValueError, ColumnUnitException, InputError) as e:
+        out.count("c:not well formed (the pdtable read reports an input error):" + type(e).__name__)
+        return
     except Exception as e:  # noqa: BLE001
-        # out-of-range timestamps, mixed UTC offsets: the grid is not well formed after all (C02 / C12 territory)
-        out.count("c:not well formed:" + type(e).__name__)
+        add_case(out, case, [case.get("cells"), via_blocks], False)
+        out.fail("reading a generated grid as pdtable raises something other than an input error", case,
+                 type(e).__name__ + ": " + str(e)[:100], "a Table or an input error", key="reader_exc:" + type(e).__name__)
+        return
+    # 2. the pdtable read succeeded: producing the JsonData of the same grid must succeed too
+    try:
+        with warnings.catch_warnings():
+            warnings.simplefilter("ignore")
+            if via_blocks:
+                j = [v for bt, v in parse_blocks(iter([list(r) for r in grid]), to="jsondata") if bt.name == "TABLE"][0]
+            else:
+                j = make_table_json_data([list(r) for r in grid], origin="x", fixer=f)
+    except Exception as e:  # noqa: BLE001
+        add_case(out, case, [case.get("cells"), via_blocks], False)
+        out.fail("the readers produce a Table for a grid but no JsonData", case, type(e).__name__ + ": " + str(e)[:100],
+                 "JsonData", key="reader_json_exc:" + type(e).__name__)
+        if not via_blocks:
+            model(dict(rc.model_op("json_of_precursor", grid, "strict")), case, {"exc": type(e).__name__}, "make_table_json_data")
         return
     nontrivial = bool(info["kinds"]) and info["n_row"] > 0
     add_case(out, case, [case.get("cells"), via_blocks], nontrivial)
@@ -1283,6 +1415,15 @@ def replay(rep):
     inp = rep.get("input") or {}
     out = Outcome()
     noop = lambda *a, **k: None  # noqa: E731
+    # histories: a conversion that was refused earlier in the same process must not matter (a shared fixer would
+    # remember it): every replay starts with one refused json_data_to_table call
+    try:
+        from pdtable.io.json import json_data_to_table as _j2t
+        with warnings.catch_warnings():
+            warnings.simplefilter("ignore")
+            _j2t({"name": "refused", "destinations": {"a": None}, "columns": {"d": {"unit": "datetime", "values": [None]}}})
+    except Exception:  # noqa: BLE001
+        pass
     if "table" in inp:
         spec = spec_from_case(inp["table"])
         rng = make_rng(int(inp.get("seed", 0)), "C08-replay")
